@@ -7,15 +7,15 @@ for sid in sorted(os.listdir('/verif/seeded')):
     d = f'/verif/seeded/{sid}'
     if not os.path.exists(f'{d}/patch.diff') or (only and sid not in only):
         continue
-    o = subprocess.run('git status --porcelain', shell=True, cwd='/repo', capture_output=True, text=True).stdout
+    o = subprocess.run('git status --porcelain', shell=True, cwd='/repo', capture_output=True, text=True, errors="replace").stdout
     if o.strip():
         sys.exit('/repo not clean')
-    a = subprocess.run(f'git apply {d}/patch.diff', shell=True, cwd='/repo', capture_output=True, text=True)
+    a = subprocess.run(f'git apply {d}/patch.diff', shell=True, cwd='/repo', capture_output=True, text=True, errors="replace")
     try:
         if a.returncode != 0:
             print(sid, 'patch does not apply', a.stderr[:200]); continue
         ev = f'/tmp/seeded-ev-{sid}'
-        r = subprocess.run(['/verif/bin/yv', 'check', '-p', 'all', '-evidence', ev], capture_output=True, text=True)
+        r = subprocess.run(['/verif/bin/yv', 'check', '-p', 'all', '-evidence', ev], capture_output=True, text=True, errors="replace")
         shutil.rmtree(ev, ignore_errors=True)
     finally:
         subprocess.run('git checkout -- .', shell=True, cwd='/repo')
